@@ -47,7 +47,13 @@ func c20FieldShape(c *eng.Ctx) {
 	// ---- mult
 	if f := c.Fn("shamir.mult"); f != nil && len(f.Params) == 2 {
 		c.Clause("R12", "C20.5b")
-		if calls := eng.Calls(f, `.`); len(calls) > 0 {
+		var calls []ssa.CallInstruction
+		for _, cl := range eng.Calls(f, `.`) {
+			if !c20InertCall(cl) {
+				calls = append(calls, cl)
+			}
+		}
+		if len(calls) > 0 {
 			c.Violation(f, "mult is self-contained", calls[0].Pos(), "mult calls "+eng.CalleeName(calls[0].Common()), nil)
 		} else {
 			c.OK(f, "mult is self-contained", f.Pos(), "no calls")
@@ -152,6 +158,10 @@ func c20FieldShape(c *eng.Ctx) {
 		straight := len(f.Blocks) == 1
 		for _, cl := range eng.Calls(f, `.`) {
 			if eng.CalleeName(cl.Common()) != "shamir.mult" {
+				// a call that receives nothing and whose result is not used cannot enter the chain
+				if c20InertCall(cl) {
+					continue
+				}
 				straight = false
 			}
 		}
@@ -484,4 +494,19 @@ func c20Interpolate(c *eng.Ctx, f *ssa.Function) {
 	} else {
 		c.Violation(f, site, f.Pos(), "the returned value is not the running sum of ys[i]*basis seeded with 0: "+detail, nil)
 	}
+}
+
+// c20InertCall: a call that receives nothing, captures nothing and whose result is not
+// used cannot influence the value the enclosing field operation computes.
+func c20InertCall(cl ssa.CallInstruction) bool {
+	if len(cl.Common().Args) != 0 {
+		return false
+	}
+	if v, isVal := cl.(ssa.Value); isVal && v.Referrers() != nil && len(*v.Referrers()) > 0 {
+		return false
+	}
+	if mc, isClo := cl.Common().Value.(*ssa.MakeClosure); isClo && len(mc.Bindings) > 0 {
+		return false
+	}
+	return true
 }
